@@ -39,6 +39,15 @@ Theorems about `PdeVerif.Cache` (Model/Cache.lean):
   `kwargs_method_cache_sound`: every history of modelled requests on the cache keyed by the CURRENT
   derivation returns what a fresh construction returns, for every `build` that is a function of the
   observables; `make_operator_cache_unsound_old`.
+* registry (`Registry`, `regRun`): `registry_cache_sound_by_info` - for every history of registrations, removals and
+  queries with an operator name the cache whose key contains the resolved `OperatorInfo` answers what the name denotes at
+  the moment of the call; `registry_cache_stale_by_name` - the name alone is not a faithful key (seeded change C04-3, and
+  on the unchanged tree the direct calls with a name and a `PDE` object: finding I).
+* operator table of a PDE with several variables (`prepareK`, `servedK`, `servedBC`): `served_of_faithful_key`,
+  `pde_operator_table_faithful`, `pde_operator_table_order_independent`, `pde_bc_per_variable` - the table keyed by
+  (variable, operator) serves every variable, in every order, the operator built with the condition selected for it;
+  `pde_shared_table_serves_first`, `pde_shared_operator_table_unsound` (kernel-checked witness, seeded change C04-4) -
+  the table keyed by the operator only serves the operator of whoever comes first.
 -/
 set_option linter.unusedSimpArgs false
 set_option linter.unusedSectionVars false
@@ -1665,5 +1674,326 @@ example : KwModelled [("fill", .num "int" "-1" (.fin (-1) 0)), ("with_ghost_cell
 example : kwObs [("fill", .num "int" "-1" (.fin (-1) 0))] "fill" ≠ kwObs [("fill", .num "int" "-2" (.fin (-2) 0))] "fill" := by
   simp [kwObs, argObs, dyadicVal]
 
+
+
+/-! ## (vi) the operator registry: the registration as part of the cache key -/
+
+/-! ## (vi) registry -/
+
+/-- the key that contains the resolved registration is faithful -/
+theorem name_key_by_info_faithful (a b : NameReq) (h : a.key .byInfo = b.key .byInfo) : a.sem = b.sem := by
+  simp only [NameReq.key, Prod.mk.injEq, Option.some.injEq] at h
+  exact h.2.2.2
+
+/-- every entry of the cache keyed with the registration holds the factory its key names -/
+def RInv (c : List (NameK × Nat)) : Prop :=
+  ∀ k v, c.lookup k = some v → k.2.2.2 = some (some v)
+
+theorem regCall_spec (c : List (NameK × Nat)) (q : NameReq) (h : RInv c) :
+    RInv (regCall .byInfo c q).1 ∧ (regCall .byInfo c q).2 = q.sem := by
+  unfold regCall
+  split
+  · rename_i v hv
+    refine ⟨h, ?_⟩
+    have := h _ _ hv
+    simp only [NameReq.key, Option.some.injEq] at this
+    exact this.symm
+  · rename_i hn
+    cases hs : q.sem with
+    | none => exact ⟨h, rfl⟩
+    | some fid =>
+      refine ⟨?_, rfl⟩
+      intro k v hk
+      simp only [List.lookup_cons] at hk
+      split at hk
+      · rename_i heq
+        have : k = q.key .byInfo := by simpa using heq
+        subst this
+        simp only [Option.some.injEq] at hk
+        subst hk
+        simp only [NameReq.key]
+        exact congrArg some hs
+      · exact h _ _ hk
+
+/-- **Registration as part of the key.**  For EVERY history of registrations, removals and queries
+(on any number of cache objects, any names) every cached call whose key contains the resolved
+`OperatorInfo` returns what the name denotes at the moment of the call. -/
+theorem registry_cache_sound_by_info (es : List RegEv) : regRun .byInfo es = regRef es := by
+  unfold regRun regRef
+  suffices h : ∀ (qs : List NameReq) (c), RInv c → regRunAll .byInfo c qs = qs.map NameReq.sem from
+    h _ [] (by intro k v hk; simp at hk)
+  intro qs
+  induction qs with
+  | nil => intro c _; rfl
+  | cons q qs ih =>
+    intro c hc
+    simp only [regRunAll, List.map_cons]
+    rw [(regCall_spec c q hc).2, ih _ (regCall_spec c q hc).1]
+
+/-- **The name alone is not a faithful key** (seeded change C04-3; on the unchanged tree: the direct
+calls `grid.make_operator_no_bc("op")`, `backend.make_operator(grid, "op", bcs=...)` and a `PDE`
+object): for every cache object, name, factories `f ≠ g` the history
+`[register f, query, register g, query]` answers `[f, f]`, a fresh process answers `[f, g]`. -/
+theorem registry_cache_stale_by_name (c l x f g : Nat) (n : String) (hfg : f ≠ g) :
+    regRun .byName [.register l n f, .query c n x, .register l n g, .query c n x] = [some f, some f] ∧
+    regRef [.register l n f, .query c n x, .register l n g, .query c n x] = [some f, some g] ∧
+    regRun .byInfo [.register l n f, .query c n x, .register l n g, .query c n x] = [some f, some g] ∧
+    regRun .byName [.register l n f, .query c n x, .register l n g, .query c n x] ≠
+      regRef [.register l n f, .query c n x, .register l n g, .query c n x] := by
+  have r1 : Registry.resolve (Registry.register [] l n f) n = some f := by
+    simp [Registry.resolve, Registry.register, Registry.better]
+  have r2 : Registry.resolve (Registry.register (Registry.register [] l n f) l n g) n = some g := by
+    simp [Registry.resolve, Registry.register, Registry.better]
+  have h1 : regRun .byName [.register l n f, .query c n x, .register l n g, .query c n x] = [some f, some f] := by
+    simp [regRun, regRequests, regRunAll, regCall, NameReq.key, NameReq.sem, r1, List.lookup]
+  have h2 : regRef [.register l n f, .query c n x, .register l n g, .query c n x] = [some f, some g] := by
+    simp [regRef, regRequests, NameReq.sem, r1, r2]
+  refine ⟨h1, h2, ?_, ?_⟩
+  · rw [registry_cache_sound_by_info, h2]
+  · rw [h1, h2]
+    simp
+    exact hfg
+
+/-- the walk order of `get_operator_info`: an entry found earlier (lower level) shadows a later one, also when it was
+registered later; removing it uncovers the other one again; the cache keyed with the registration follows -/
+example : regRun .byInfo [.register 2 "op" 7, .query 0 "op" 0, .register 0 "op" 8, .query 0 "op" 0, .query 1 "op" 0,
+      .unregister 0 "op", .query 0 "op" 0, .unregister 2 "op", .query 0 "op" 0] = [some 7, some 8, some 8, some 7, none] ∧
+    regRun .byName [.register 2 "op" 7, .query 0 "op" 0, .register 0 "op" 8, .query 0 "op" 0, .query 1 "op" 0,
+      .unregister 0 "op", .query 0 "op" 0, .unregister 2 "op", .query 0 "op" 0] = [some 7, some 7, some 8, some 7, some 7] := by
+  decide +kernel
+
+/-! ## (vii) the operator table of a PDE with several variables -/
+
+section OpTable
+variable {κ V : Type} [DecidableEq κ]
+
+/-- one step of `_add_operators_to_expr` -/
+def addOne (key : String → String → κ) (build : String → String → V) (name : String) (t : List (κ × V)) (o : String) : List (κ × V) :=
+  match t.lookup (key name o) with
+  | some _ => t
+  | none => (key name o, build name o) :: t
+
+theorem addOpsK_eq (key : String → String → κ) (build : String → String → V) (tab) (v : VarSpec) :
+    addOpsK key build tab v = v.ops.foldl (addOne key build v.name) tab := rfl
+
+/-- entries are never overwritten -/
+theorem addOne_mono (key : String → String → κ) (build : String → String → V) (name : String) (t) (o : String)
+    (k : κ) (x : V) (h : t.lookup k = some x) : (addOne key build name t o).lookup k = some x := by
+  unfold addOne
+  split
+  · exact h
+  · rename_i hn
+    rw [List.lookup_cons]
+    split
+    · rename_i heq
+      have : k = key name o := by simpa using heq
+      subst this
+      rw [hn] at h
+      exact absurd h (by simp)
+    · exact h
+
+theorem addOne_present (key : String → String → κ) (build : String → String → V) (name : String) (t) (o : String) :
+    ∃ x, (addOne key build name t o).lookup (key name o) = some x := by
+  unfold addOne
+  split
+  · rename_i x hx
+    exact ⟨x, hx⟩
+  · exact ⟨build name o, by simp⟩
+
+theorem foldl_addOne_mono (key : String → String → κ) (build : String → String → V) (name : String) (os : List String) :
+    ∀ (t : List (κ × V)) (k : κ) (x : V), t.lookup k = some x → (os.foldl (addOne key build name) t).lookup k = some x := by
+  induction os with
+  | nil => intro t k x h; exact h
+  | cons o os ih =>
+    intro t k x h
+    exact ih _ k x (addOne_mono key build name t o k x h)
+
+theorem foldl_addOne_present (key : String → String → κ) (build : String → String → V) (name : String) (os : List String) :
+    ∀ (t : List (κ × V)) (o : String), o ∈ os → ∃ x, (os.foldl (addOne key build name) t).lookup (key name o) = some x := by
+  induction os with
+  | nil => intro t o h; exact absurd h (by simp)
+  | cons o' os ih =>
+    intro t o h
+    rcases List.mem_cons.mp h with rfl | h
+    · obtain ⟨x, hx⟩ := addOne_present key build name t o
+      exact ⟨x, foldl_addOne_mono key build name os _ _ x hx⟩
+    · exact ih _ o h
+
+theorem prepareK_mono (key : String → String → κ) (build : String → String → V) (vars : List VarSpec) :
+    ∀ (t : List (κ × V)) (k : κ) (x : V), t.lookup k = some x → (prepareK key build t vars).lookup k = some x := by
+  induction vars with
+  | nil => intro t k x h; exact h
+  | cons v vs ih =>
+    intro t k x h
+    exact ih _ k x (foldl_addOne_mono key build v.name v.ops t k x h)
+
+theorem prepareK_present (key : String → String → κ) (build : String → String → V) (vars : List VarSpec) :
+    ∀ (t : List (κ × V)) (v : VarSpec) (o : String), v ∈ vars → o ∈ v.ops →
+      ∃ x, (prepareK key build t vars).lookup (key v.name o) = some x := by
+  induction vars with
+  | nil => intro t v o h; exact absurd h (by simp)
+  | cons w vs ih =>
+    intro t v o hv ho
+    rcases List.mem_cons.mp hv with rfl | hv
+    · obtain ⟨x, hx⟩ := foldl_addOne_present key build v.name v.ops t o ho
+      exact ⟨x, prepareK_mono key build vs _ _ x hx⟩
+    · exact ih _ v o hv ho
+
+/-- every entry is the operator built for a (variable, operator) pair with that key -/
+def TInv (key : String → String → κ) (build : String → String → V) (t : List (κ × V)) : Prop :=
+  ∀ k x, t.lookup k = some x → ∃ v o, key v o = k ∧ x = build v o
+
+theorem addOne_inv (key : String → String → κ) (build : String → String → V) (name : String) (t) (o : String)
+    (h : TInv key build t) : TInv key build (addOne key build name t o) := by
+  unfold addOne
+  split
+  · exact h
+  · intro k x hk
+    rw [List.lookup_cons] at hk
+    split at hk
+    · rename_i heq
+      have : k = key name o := by simpa using heq
+      subst this
+      simp only [Option.some.injEq] at hk
+      exact ⟨name, o, rfl, hk.symm⟩
+    · exact h k x hk
+
+theorem prepareK_inv (key : String → String → κ) (build : String → String → V) (vars : List VarSpec) :
+    ∀ t, TInv key build t → TInv key build (prepareK key build t vars) := by
+  induction vars with
+  | nil => intro t h; exact h
+  | cons v vs ih =>
+    intro t h
+    apply ih
+    show TInv key build (v.ops.foldl (addOne key build v.name) t)
+    generalize v.ops = os
+    induction os generalizing t with
+    | nil => exact h
+    | cons o os ih2 => exact ih2 _ (addOne_inv key build v.name t o h)
+
+theorem TInv_nil (key : String → String → κ) (build : String → String → V) : TInv key build [] := by
+  intro k x h; simp at h
+
+theorem TInv_cons (key : String → String → κ) (build : String → String → V) (v o : String) (t : List (κ × V))
+    (h : TInv key build t) : TInv key build ((key v o, build v o) :: t) := by
+  intro k x hk
+  rw [List.lookup_cons] at hk
+  split at hk
+  · rename_i heq
+    have : k = key v o := by simpa using heq
+    subst this
+    simp only [Option.some.injEq] at hk
+    exact ⟨v, o, rfl, hk.symm⟩
+  · exact h k x hk
+
+/-- **A faithful table key.**  If the key of the table determines the (variable, operator) pair up to
+what `build` distinguishes, then for EVERY list of variables in EVERY order, starting from any table whose
+entries are of that form (`init`: the general operators `dot`, `inner`, `outer`, `integral`, whose
+implementation is the same for every variable), the expression of every variable finds, under every
+operator name it uses, the operator built for this variable and operator. -/
+theorem served_of_faithful_key (key : String → String → κ) (build : String → String → V)
+    (faithful : ∀ v o v' o', key v o = key v' o' → build v o = build v' o')
+    (init : List (κ × V)) (hinit : TInv key build init)
+    (vars : List VarSpec) (v : VarSpec) (o : String) (hv : v ∈ vars) (ho : o ∈ v.ops) :
+    servedK key build init vars v.name o = some (build v.name o) := by
+  unfold servedK
+  obtain ⟨x, hx⟩ := prepareK_present key build vars init v o hv ho
+  obtain ⟨v', o', hk, rfl⟩ := prepareK_inv key build vars init hinit _ _ hx
+  rw [hx, faithful _ _ _ _ hk]
+
+end OpTable
+
+/-- **The table keyed by (variable, operator)** - the code as it is, every variable prepares its own copy -
+serves every variable the operator built for it (with the boundary condition selected for
+`VARIABLE:OPERATOR`), for every list of variables. -/
+theorem pde_operator_table_faithful {V : Type} (build : String → String → V) (vars : List VarSpec)
+    (v : VarSpec) (o : String) (hv : v ∈ vars) (ho : o ∈ v.ops) :
+    servedK TableKey.perVar.key build [] vars v.name o = some (build v.name o) := by
+  apply served_of_faithful_key _ _ _ [] (TInv_nil _ _) vars v o hv ho
+  intro a b a' b' h
+  simp only [TableKey.key, Prod.mk.injEq] at h
+  rw [h.1, h.2]
+
+/-- ... in particular in every order of the variables -/
+theorem pde_operator_table_order_independent {V : Type} (build : String → String → V) (vars vars' : List VarSpec)
+    (hp : vars ~ vars') (v : VarSpec) (o : String) (hv : v ∈ vars) (ho : o ∈ v.ops) :
+    servedK TableKey.perVar.key build [] vars' v.name o = servedK TableKey.perVar.key build [] vars v.name o := by
+  rw [pde_operator_table_faithful build vars v o hv ho, pde_operator_table_faithful build vars' v o (hp.subset hv) ho]
+
+/-- the boundary condition of every operator of every variable is the one `PDE.bcs` selects for it -/
+theorem pde_bc_per_variable (bcs : BcKeys) (vars : List VarSpec) (v : VarSpec) (o : String) (hv : v ∈ vars) (ho : o ∈ v.ops) :
+    servedBC .perVar bcs vars v.name o = some (selectBC bcs v.name o) :=
+  pde_operator_table_faithful (selectBC bcs) vars v o hv ho
+
+/-- all entries of a table that only one variable wrote were built for that variable -/
+theorem foldl_addOne_inv_name {κ V : Type} [DecidableEq κ] (key : String → String → κ) (build : String → String → V) (name : String)
+    (os : List String) : ∀ (t : List (κ × V)), (∀ k x, t.lookup k = some x → ∃ o, key name o = k ∧ x = build name o) →
+      ∀ k x, (os.foldl (addOne key build name) t).lookup k = some x → ∃ o, key name o = k ∧ x = build name o := by
+  induction os with
+  | nil => intro t h; exact h
+  | cons o os ih =>
+    intro t h
+    apply ih
+    intro k x hk
+    unfold addOne at hk
+    split at hk
+    · exact h k x hk
+    · rw [List.lookup_cons] at hk
+      split at hk
+      · rename_i heq
+        have : k = key name o := by simpa using heq
+        subst this
+        simp only [Option.some.injEq] at hk
+        exact ⟨o, rfl, hk.symm⟩
+      · exact h k x hk
+
+/-- **One table for all variables is served by whoever comes first**: with the operator name as the
+only key, EVERY variable (`var` arbitrary) finds under an operator name that the first variable uses
+the operator built for the FIRST variable - with the boundary condition of the first variable. -/
+theorem pde_shared_table_serves_first {V : Type} (build : String → String → V) (u : VarSpec) (rest : List VarSpec)
+    (var o : String) (ho : o ∈ u.ops) :
+    servedK TableKey.shared.key build [] (u :: rest) var o = some (build u.name o) := by
+  unfold servedK
+  obtain ⟨x, hx⟩ := foldl_addOne_present TableKey.shared.key build u.name u.ops [] o ho
+  obtain ⟨o', hk, rfl⟩ := foldl_addOne_inv_name TableKey.shared.key build u.name u.ops []
+    (by intro k x h; simp at h) _ _ hx
+  simp only [TableKey.key, Prod.mk.injEq, true_and] at hk
+  subst hk
+  exact prepareK_mono TableKey.shared.key build rest _ _ _ hx
+
+/-- **Kernel-checked witness (seeded change C04-4).**  `PDE({"u": "laplace(u)", "v": "laplace(v)"},
+bc_ops={"u:laplace": b0, "v:laplace": b1})`: with one table for all variables the equation of `v` is
+served the operator with the condition of `u` (entry 0), its own condition (entry 1) is never used;
+swapping the variables swaps which one is wrong; the table keyed by (variable, operator) serves both
+correctly in both orders. -/
+theorem pde_shared_operator_table_unsound :
+    let bcs : BcKeys := [("u", "laplace"), ("v", "laplace"), ("*", "*")]
+    let u : VarSpec := ⟨"u", ["laplace"]⟩
+    let v : VarSpec := ⟨"v", ["laplace"]⟩
+    servedBC .shared bcs [u, v] "v" "laplace" = some (some 0) ∧ selectBC bcs "v" "laplace" = some 1 ∧
+    servedBC .shared bcs [v, u] "u" "laplace" = some (some 1) ∧ selectBC bcs "u" "laplace" = some 0 ∧
+    bcsUsed .shared bcs [u, v] = [0] ∧ bcsUsed .shared bcs [v, u] = [1] ∧
+    servedBC .perVar bcs [u, v] "v" "laplace" = some (some 1) ∧ servedBC .perVar bcs [v, u] "u" "laplace" = some (some 0) ∧
+    bcsUsed .perVar bcs [u, v] = [1, 0] ∧ bcsUsed .perVar bcs [v, u] = [0, 1] := by
+  decide +kernel
+
+/-- the hypotheses of `served_of_faithful_key` hold for a table that starts with the general operators (`dot`: the same
+implementation in the copy of every variable) -/
+example : let build : String → String → String := fun v o => if o = "dot" then "DOT" else v ++ ":" ++ o
+    TInv TableKey.perVar.key build [(("u", "dot"), "DOT"), (("v", "dot"), "DOT")] ∧
+    servedK TableKey.perVar.key build [(("u", "dot"), "DOT"), (("v", "dot"), "DOT")]
+      [⟨"u", ["dot", "laplace"]⟩, ⟨"v", ["laplace", "dot"]⟩] "v" "laplace" = some "v:laplace" ∧
+    servedK TableKey.perVar.key build [(("u", "dot"), "DOT"), (("v", "dot"), "DOT")]
+      [⟨"u", ["dot", "laplace"]⟩, ⟨"v", ["laplace", "dot"]⟩] "v" "dot" = some "DOT" := by
+  intro build
+  refine ⟨?_, by decide +kernel, by decide +kernel⟩
+  exact TInv_cons TableKey.perVar.key build "u" "dot" _ (TInv_cons TableKey.perVar.key build "v" "dot" _ (TInv_nil _ _))
+
+/-- the hypotheses of `pde_operator_table_faithful` are satisfiable with operators shared between variables -/
+example : let vars : List VarSpec := [⟨"u", ["laplace", "gradient_squared"]⟩, ⟨"v", ["laplace"]⟩, ⟨"w", ["laplace", "laplace"]⟩]
+    (⟨"v", ["laplace"]⟩ : VarSpec) ∈ vars ∧ "laplace" ∈ (⟨"v", ["laplace"]⟩ : VarSpec).ops ∧
+    servedK TableKey.perVar.key (fun v o => v ++ ":" ++ o) [] vars "w" "laplace" = some "w:laplace" ∧
+    servedK TableKey.shared.key (fun v o => v ++ ":" ++ o) [] vars "w" "laplace" = some "u:laplace" := by
+  decide +kernel
 
 end PdeVerif.Cache
